@@ -106,7 +106,8 @@ StepEmpty(j) ==
       r == EmptyApply(cfg, St, lab.opts)
   IN /\ SameObservable(r.st, j.post, FALSE)
      /\ ExitOK(r.out.exit, lab.exit)
-     /\ r.out.printed = {[t |-> x.t, part |-> x.part, ref |-> x.ref] : x \in SetOf(lab.printed)}
+     /\ LET obsPrinted == {[t |-> x.t, part |-> x.part, ref |-> x.ref] : x \in SetOf(lab.printed)} IN
+          obsPrinted = r.out.printed \/ obsPrinted = r.out.printedDev
      /\ SetSt(r.st) /\ out' = r.out
 
 PatOf(p) == CASE p.k = "name" -> [k |-> "name", n |-> p.n]
